@@ -180,7 +180,7 @@ func runC07(r *Run) {
 		r.Rule("C07.R4")
 		st := "trillian/ctfe.parseGetEntriesRange(*)#0"
 		r.FailEdge(fn, "getEntries", EdgeSpec{Name: "root-garbled", Atom: nilAtom("(*types.LogRootV1).UnmarshalBinary(*)"), Bad: "non", Want: wantStatus("500")})
-		r.FailEdge(fn, "getEntries", EdgeSpec{Name: "tree-too-small", Atom: ordAtomR("new:types.LogRootV1#0.TreeSize", st), Bad: "<,=", Want: wantStatus("400")})
+		r.FailEdge(fn, "getEntries", EdgeSpec{Name: "tree-too-small", Atom: ordAtomR(decodedRoot(r, fn)+".TreeSize", st), Bad: "<,=", Want: wantStatus("400")})
 		r.FailEdge(fn, "getEntries", EdgeSpec{Name: "surplus-leaves", Atom: ordAtomR("len(*.Leaves)", "((1 + trillian/ctfe.parseGetEntriesRange(*)#1) - trillian/ctfe.parseGetEntriesRange(*)#0)"), Bad: ">", Want: wantStatus("500")})
 		r.FailEdge(fn, "getEntries", EdgeSpec{Name: "leaf-misindexed", Atom: ordAtomR("*.Leaves[*].LeafIndex", "(* + trillian/ctfe.parseGetEntriesRange(*)#0)"), Bad: "<,>", Want: wantStatus("500")})
 		// the index compared is start + i for the very element inspected
@@ -402,14 +402,18 @@ func runC07(r *Run) {
 		if c := r.OneCall(fn, "client.GetEntries:decode", "ct.LogEntryFromLeaf"); c != nil {
 			idx := r.D.Lin(CallArgs(c)[0], nil).String()
 			r.Check("client.GetEntries:index", linNoConst(idx) && (glob("+it@* +p2", idx) || glob("+p2 +φ*", idx) || glob("+φ* +p2", idx)), r.Where(c), "entry i is decoded with index "+idx+" (start + i)")
-			a := baseAlloc(CallArgs(c)[1])
-			ok := false
-			if a != nil {
-				for _, st := range r.StoresTo(fn, r.D.allocName(a)) {
-					ok = glob("(*client.LogClient).*etRawEntries(*)#0.Entries[it@*]", r.D.D(st.Val))
+			// what is decoded is Entries[i] of the reply for the same i — handed over as the address of
+			// the range copy or of the element itself
+			elem, resolved := r.pointeeTerm(fn, CallArgs(c)[1], c)
+			it := ""
+			for _, t := range splitTerms(idx) {
+				if strings.HasPrefix(t, "+it@") {
+					it = t[1:]
 				}
 			}
-			r.Check("client.GetEntries:element", ok, r.Where(c), "the decoded entry is Entries[i] of the reply")
+			ok := resolved && glob("(*client.LogClient).*etRawEntries(*)#0.Entries[it@*]", elem) && strings.Count(elem, "it@") == 1 &&
+				(it == "" || strings.HasSuffix(elem, ".Entries["+it+"]"))
+			r.Check("client.GetEntries:element", ok, r.Where(c), "the decoded entry is Entries[i] of the reply, i being the counter the index is computed from: "+elem)
 		}
 	}
 }
